@@ -462,6 +462,12 @@ func (e *racEnv) call(x *ECall) gval {
 		return gv(fmt.Sprintf("func() %s { if %s { return %s }; return %s }()", goType(p.k, p.elem), c, p.s, q.s), p.k, p.elem)
 	case "len":
 		return gval{s: "big.NewInt(int64(len(" + e.eval(a[0]).s + ")))", k: gInt, elem: nil}
+	case "cap":
+		return gval{s: "big.NewInt(int64(cap(" + e.eval(a[0]).s + ")))", k: gInt, elem: nil}
+	case "extends":
+		// observable part: the same array means the same capacity and no shrinking; a result inside the original
+		// array at another offset is never right; "allocated after the call" cannot be seen at run time
+		return gval{s: "racExtends(" + e.eval(a[0]).s + ", " + e.eval(a[1]).s + ")", k: gBool, elem: nil}
 	case "has":
 		return gval{s: "((" + e.c(a[0]) + " & " + e.c(a[1]) + ") != 0)", k: gBool, elem: nil}
 	case "none":
